@@ -111,6 +111,16 @@ def run(run, binfo):
                 # tokens separated by tabs / line breaks (as a multi-line YAML value would have them)
                 rules[n] = rules[n].replace(' ', rng.choice(['\t', '\n', '  \n  ', '\r\n']))
         sets.append(rules)
+    # a whole body that is ONE word with parentheses glued to it (the tokenizer strips them; the reference is still there)
+    for wrap in ('(%s)', '((%s))', '( %s)', '(((%s)))'):
+        for nm in (['a', 'b'], ['default', 'n1']):
+            x, y = nm
+            sets.append({x: wrap % 'rule:zz'})
+            sets.append({x: wrap % ('rule:' + x)})
+            sets.append({x: wrap % ('rule:' + y), y: wrap % ('rule:' + x)})
+            sets.append({x: wrap % ('rule:' + y), y: 'role:x'})
+            sets.append({x: 'role:x or rule:' + y, y: wrap % 'rule:zz'})
+            sets.append({x: 'not ' + wrap % ('rule:' + y), y: wrap % '@'})
     run.count('exhaustive_rule_sets', nexh)
     run.count('random_rule_sets', nrand)
     answers = run_batch([[9, EXTRA, [[S(k), enc_jv(v)] for k, v in rs.items()], 0] for rs in sets])
@@ -220,20 +230,32 @@ def validator_cases(run, bad_corr):
     files += [{'a': 'rule:helper', 'helper': 'role:x'}, {'a': 'role:x', 'b': 'not rule:helper', 'helper': '@'},
               {'helper': 'rule:helper2', 'helper2': 'role:x', 'a': 'rule:helper'}]
     files.append({'self': 'rule:self', 'a': '@'})
+    # the deployment also has a policy directory: what its files define is validated like the policy file
+    # (a pair = (policy file, directory file))
+    for i, dv in enumerate([{'unknown': 'role:x'}, {'b': 'role:y'}, {'c': 'rule:nope'}, {'helper': '@', 'a': 'rule:helper'},
+                            {'c': 'not rule:c'}, {'a': 'role:y', 'zz_other': 'role:x'}, {'b': 'rule:c', 'c': 'rule:b'}, {}]):
+        files.append(({'a': 'role:x'}, dv, 'yaml' if i % 2 else 'json'))
+        files.append(({}, dv, 'json' if i % 2 else 'yaml'))
     for regs in regsets:
         for f in files:
             shutil.rmtree(root, ignore_errors=True)
             os.makedirs(root)
-            fs = FsSim(root, dirs=[])
+            dirfile = None
+            if isinstance(f, tuple):
+                f, dirfile, dfmt = f
+            fs = FsSim(root, dirs=['policy.d'] if dirfile is not None else [])
             if f is not None:
                 fs.write_main(f, 'yaml')
+            if dirfile is not None:
+                fs.write('policy.d', 'extra.' + dfmt, dirfile, dfmt)
             fs.sync()
             conf = cfg.CONF
             conf.reset()
             opts._register(conf)
             conf(['--config-dir', root], project='verif')
             conf.set_override('policy_file', os.path.join(root, 'policy.yaml'), group='oslo_policy')
-            conf.set_override('policy_dirs', [], group='oslo_policy')
+            conf.set_override('policy_dirs', [os.path.join(root, 'policy.d')] if dirfile is not None else [],
+                              group='oslo_policy')
             e = policy.Enforcer(conf)
             from loadsim import mk_default
             for d in regs:
@@ -255,7 +277,7 @@ def validator_cases(run, bad_corr):
             from common import run_batch
             m = run_batch([[18, [1, enc_defaults(regs), 1], fs.wire()]])[0]
             if m != rc:
-                bad_corr.append(({'validator_file': f}, m, rc))
+                bad_corr.append(({'validator_file': f, 'directory_file': dirfile}, m, rc))
             # the statement, read directly
             regnames = {d[0] for d in regs}
             if f is None:
@@ -263,6 +285,9 @@ def validator_cases(run, bad_corr):
             else:
                 rules = dict((d[0], d[1]) for d in regs)
                 rules.update({k: v for k, v in f.items()})
+                if dirfile is not None:
+                    rules.update(dirfile)
+                    f = dict(f, **dirfile)
                 und, cyc = graph_spec({k: (v if isinstance(v, str) else '!') for k, v in rules.items()})
                 bad = bool(und or cyc) or any(k not in regnames for k in f)
                 for k, v in f.items():
@@ -271,8 +296,9 @@ def validator_cases(run, bad_corr):
                         bad = True
                 want = 1 if bad else 0
             if rc != want:
-                run.violation('validator', 'oslopolicy-validator returns %r for file %r, documented %r' % (rc, f, want),
-                              {'kind': 'failing-input', 'suite': 'spec-c13-validator', 'input': {'file': f},
+                run.violation('validator', 'oslopolicy-validator returns %r for file %r%s, documented %r'
+                              % (rc, f, '' if dirfile is None else ' (of which the policy directory file defines %r)' % dirfile, want),
+                              {'kind': 'failing-input', 'suite': 'spec-c13-validator', 'input': {'file': f, 'directory_file': dirfile},
                                'expected': want, 'observed': rc})
     shutil.rmtree(root, ignore_errors=True)
     return n
